@@ -108,11 +108,21 @@ func runC24(c *core.Ctx) {
 			continue
 		}
 		var target *types.Var
-		for df, v := range stores {
+		for k := 0; k < ftxS.NumFields(); k++ { // deterministic order
+			df := ftxS.Field(k)
+			v, has := stores[df]
+			if !has {
+				continue
+			}
+			if _, taken := usedDTO[df]; taken && target != nil {
+				continue
+			}
 			for x := range core.BackwardReach(v) {
 				if _, lf := core.FieldLoad(x); lf == tf {
 					if rb, _ := core.FieldLoad(x); rb != nil && core.ExprKey(rb) == "recv" {
-						target = df
+						if _, taken := usedDTO[df]; !taken || target == nil {
+							target = df
+						}
 					}
 				}
 			}
